@@ -18,6 +18,7 @@ import PhQVerif.Generated.Obl_C04arith
 import PhQVerif.Generated.Obl_C04std
 import PhQVerif.Generated.Obl_C04twin
 import PhQVerif.Generated.Obl_C04compound
+import PhQVerif.Generated.Obl_NarrowQ
 
 namespace PhQVerif.Props.C04
 open PhQVerif Generated
@@ -124,6 +125,18 @@ theorem compound_fold (L : Libm) (hist : List ((Entry × Entry × Bool) × List 
           simp [hchk]
     rw [hsame]
     exact ih (fun x hx => hrows x (List.mem_cons_of_mem _ hx)) _
+
+/-- **C04 (nothing is computed in a lower precision).** No operation, conversion or comparison of any
+entry point of any quantity class is carried out with fewer significand bits than the numeric type the
+entry is instantiated at (for the mixed-precision converting members: than the lower of the two). So
+"correctly rounded" above means correctly rounded *in the type's own precision*: a `float` temporary
+or a `cbrtf` inside `double` code, which leaves every formula over the reals unchanged, breaks this. -/
+theorem precision_preserved :
+    ∀ e ∈ quantityEntries, ∀ ex ∈ e.tree.exprs, e.needP ≤ ex.minP := by
+  intro e he ex hex
+  have h : Chk.NoNarrowing e = true := List.all_eq_true.mp Obl.NarrowQ e he
+  simp only [Chk.NoNarrowing, checkNoNarrowing, List.all_eq_true, decide_eq_true_eq] at h
+  exact h ex hex
 
 /-- **C04 (`<cmath>` overloads).** The standard math functions overloaded for dimensionless scalar
 quantities are exactly that function of the stored number, in the quantity's format. -/
